@@ -17,7 +17,8 @@ def collect(modules, tier, scale, every=None, seed=1, skip=("selftest", "fmt_tab
         js = [j for j in js if not any(s in j["unit"] for s in skip)]
         k = every.get(m, 1)
         if k > 1:
-            js = [j for i, j in enumerate(js) if (i + seed) % k == 0]
+            # jobs marked "always" (small units aimed at one boundary) are kept whatever the thinning
+            js = [j for i, j in enumerate(js) if (i + seed) % k == 0 or j.get("always")]
         for j in js:
             j = dict(j)
             j.pop("cfg", None)
